@@ -33,6 +33,7 @@ def SYM(**kw):
 
 
 def REAL(**kw):
+    kw.pop("xr", None)
     return Env("real", **kw)
 
 
@@ -45,6 +46,8 @@ def result_of(kind, v):
         return "s"
     if kind == 3:
         return (v, v + 1)
+    if kind == 5:
+        return {"e": v, "ok": v % 2 == 0, "tag": "t"}     # a dict of named outputs: number, bool, str
     return [v, v + 1]                     # nested list of shape (2,)
 
 
@@ -62,8 +65,28 @@ def nan_array(x, shape):
         return False
 
 
+def all_missing_dataset(x, names):
+    """a Dataset (model or real) with exactly these variables, every one of them null"""
+    if hasattr(x, "_vars"):                                   # MiniXR
+        from ..stubs import minixr as mx
+
+        if sorted(x._vars) != sorted(names):
+            return False
+        return all(bool(mx.isnull(c)) for da in x._vars.values() for c in da.cells.values())
+    try:
+        import xarray as xr
+
+        if not isinstance(x, xr.Dataset) or sorted(x.data_vars) != sorted(names):
+            return False
+        return all(bool(x[n].isnull().all()) for n in names)
+    except Exception:  # noqa
+        return False
+
+
 def placeholder_ok(kind, x):
     """all-missing stand-in, shaped like a real result"""
+    if kind == 5:
+        return all_missing_dataset(x, ["e", "ok", "tag"])
     if kind == 0:
         return is_nan(x)
     if kind in (1, 2):
@@ -90,7 +113,7 @@ def pick_cases(k, s1, s2, s3, s4, which=0):
 def body_cases(E, k, s1, s2, s3, s4, nsub, kind, dictsp, flat, via, base, shuf, j1, j2, j3, j4, j5, pool=0):
     k = concretize(k, 1, 4)
     nsub = concretize(nsub, 0, 2)
-    kind = concretize(kind, 0, 4)
+    kind = concretize(kind, 0, 5)
     flat = cbool(flat)
     via = concretize(via, 0, 1)           # 0 combo_runner(cases=), 1 case_runner (always flat)
     pts = pick_cases(k, s1, s2, s3, s4, concretize(pool, 0, 2))
@@ -106,7 +129,7 @@ def body_cases(E, k, s1, s2, s3, s4, nsub, kind, dictsp, flat, via, base, shuf, 
     cases = [({"a": a, "b": b} if i % 2 == 0 else {"b": b, "a": a}) for i, (a, b) in enumerate(pts)] \
         if cbool(dictsp) else None
     combos = {"c": SUB[:nsub]} if nsub else None
-    with E(pools=[js[:N]]) as env:
+    with E(pools=[js[:N]], **({"xr": True} if kind == 5 else {})) as env:
         opts = {}
         if cbool(shuf):
             opts["shuffle"] = env.seed_for(js[:N], N)
@@ -210,10 +233,11 @@ CONDS = (
     split_conds(_G, "cases", body_cases, _SIG.replace("kind:int ", ""),
                 ["1 <= k <= 3 and nsub == 0 and 0 <= via <= 1 and not shuf and s4 == 0", _S, _NOJ,
                  "k >= 2 or s2 == 0", "k >= 3 or s3 == 0", "via == 0 or not flat"],
-                "kind", [0, 1, 2, 3, 4], timeout=400,
+                "kind", [0, 1, 2, 3, 4, 5], timeout=400,
                 bounds="every ordered selection of 1-3 distinct cases out of a 6-point (a, b) pool (unsorted values), "
                        "dict or tuple spelling, nested or flat, combo_runner(cases=) or case_runner; result kind "
-                       "0 number 1 bool 2 str 3 2-tuple 4 list of 2")
+                       "0 number 1 bool 2 str 3 2-tuple 4 list of 2 5 dict of named outputs (number, bool, str; placeholder = a "
+                       "Dataset with every variable null)")
     + [make_cond(_G, "subgrid", body_cases, _SIG,
                  ["1 <= k <= 2 and 1 <= nsub <= 2 and via == 0 and not shuf and s3 == 0 and s4 == 0 and 0 <= kind <= 4",
                   _S, _NOJ, "k >= 2 or s2 == 0"], timeout=400,
@@ -240,6 +264,6 @@ CONDS = (
 
 ASSUMPTIONS = [
     "tqdm replaced by a no-op; `random` by NDRandom",
-    "case coordinates are concrete values from a 6-point pool (they are hashed into sets/dict keys); dict / "
-    "Dataset-valued results (xarray full_like) and unsortable mixed-type coordinates are outside the claim",
+    "case coordinates are concrete values from 6-point pools (they are hashed into sets/dict keys); Dataset / "
+    "DataArray-valued results and unsortable mixed-type coordinates are outside the claim",
 ]
